@@ -4,6 +4,7 @@
 set -u
 cd /verif
 WT=/tmp/wt/scratch
+(cd /verif/checker && GOFLAGS=-mod=mod GOPROXY=off go build -o /verif/.bin/sialint ./cmd/sialint) || exit 2
 [ -d $WT ] || git -C /repo worktree add -q --detach $WT HEAD
 PROPS=$(python3 -c "import json;print(' '.join(c['property_id'] for c in json.load(open('/verif/MANIFEST.json'))['checks']))")
 DIRS=${@:-$(ls -d /verif/refactors/*/r* 2>/dev/null)}
